@@ -201,3 +201,47 @@ def run(ctx):
 
     from engine.run import borrow
     borrow(ctx, 'C13', ['GROW-CAP', 'ITER-BOUNDS'], 'the read-chunk table grows while a header is parsed: capacity bookkeeping is memory safety of the parser')
+
+    ctx.rule('ALLOC-INDEX', 'every subscript T [i] of a table allocated in the same function as T = calloc (N, ...) with a variable count has i < N proved by A-PENT at the subscript '
+             '(the chunk tables are decided by C13 ITER-BOUNDS, shared above)', floor=3)
+    nai = 0
+    for f_ in sorted(prog.lib_fns(), key=lambda f: (f.file, f.line)):
+        pairs_ = {}
+        for lv, a, r in assigned_lvalues(f_):
+            if r is None:
+                continue
+            ru = f_.unwrap(r)
+            if ru.get('k') == 'CallExpr' and ru.get('callee') == 'calloc':
+                cn = f_.unwrap(f_.args(ru)[0])
+                if cn.get('v') is None and not lv.endswith('->chunks'):
+                    pairs_[lv] = f_.s(cn)
+        if not pairs_:
+            continue
+        bd_ = None
+        kk = 0
+        for x in f_.walk():
+            if x['k'] != 'ArraySubscriptExpr':
+                continue
+            T_ = f_.s(f_.unwrap(f_.N[x['kids'][0]]))
+            if T_ not in pairs_:
+                continue
+            if bd_ is None:
+                bd_ = Bounds(prog, f_, eff)
+            idx = f_.unwrap(f_.N[x['kids'][1]])
+            # `T [k++]` : the index used is the value before the increment
+            if idx.get('k') == 'UnaryOperator' and idx.get('op') == 'post++':
+                idx = f_.unwrap(f_.N[idx['kids'][0]])
+            b = bd_.ev_at(idx, f_.cfg.point(x))
+            N_ = pairs_[T_]
+            ok = ('<', N_) in b.ubs
+            nai += 1
+            kk += 1
+            ctx.ob('ALLOC-INDEX', '%s:%s[%s]#%d' % (f_.name, T_, f_.s(idx)[:20], kk), ok, f_.loc(x), 'index %s of %s (allocated with %s entries): %s' % (f_.s(idx), T_, N_, 'proved < %s' % N_ if ok else
+                   'NOT proved below the allocated count (facts: %s) — a write / read one past the table' % sorted(b.ubs)[:4]), repr(b))
+    ctx.require(nai >= 3, 'only %d subscripts of locally allocated tables found' % nai)
+
+    ctx.rule('STR-GROW', 'psf_store_string: when storage_used + needed exceeds storage_len, the new length has a lower bound L (an arm of its max / the assigned expression) with '
+             'L - (storage_used + needed) >= 0 for all sizes, given storage_used <= storage_len: the copy to storage + storage_used stays inside the reallocated block', floor=2)
+    from engine.strgrow import str_grow
+    str_grow(ctx, prog)
+
